@@ -2,7 +2,7 @@
    model does not contain at all; "any hasher" is the assumed hashbrown contract, exercised by the
    correspondence runs under five hashers including an all-colliding one and lookups through a
    borrowed key type). *)
-Require Import LruV.A.OrderA.
+Require Import LruV.A.OrderA LruV.A.HistoryA.
 Require Import LruV.A.MonitorsSound LruV.A.MonitorsA LruV.A.InvA LruV.B.StepB LruV.B.ReachB.
 
 (* at most one entry per key, in every reachable state *)
@@ -82,9 +82,57 @@ Proof.
   - exact (C04_step E VS HE HV _ _ _ _ _ _ (reach_inv E VS HE HV _ HRa) Hwf HA).
 Qed.
 
+(* THE PROPERTY IN ITS OWN WORDS, FOR EVERY HISTORY: `sm_of h` is the sequential map a client keeps from the calls it
+   made and what they returned (A/HistoryA.v: `sm_step` stores on a successful insert / try_insert and on a successful
+   mutate — the closure's result —, deletes the keys the call reports as leaving: evicted entries, the entry a removal
+   returned, the entry a too-large mutate handed back, the entries retain's predicate rejected, everything on clear /
+   drain; every other call changes nothing).  After any sequence of calls, of any length, from `new` / `with_capacity`
+   and under any behaviour of the table (the oracle is arbitrary at every step: growth, tombstones, reserve, shrink),
+   a lookup of any key finds exactly what that map holds: the value most recently stored for the key if it has not
+   since been removed or evicted, otherwise nothing. *)
+Theorem C04_last_store_wins : forall E VS, 0 < E -> VS <= E -> forall h s, Hist E VS h s ->
+  forall q, lookup s q = sm_of h q.
+Proof. exact lookup_is_last_store. Qed.
+Check C04_last_store_wins : forall E VS, 0 < E -> VS <= E -> forall h s, Hist E VS h s -> forall q, lookup s q = sm_of h q.
+
+(* the same about every reachable state of the heap-of-nodes model *)
+Theorem C04_history_pointer_level : forall E VS, 0 < E -> VS <= E -> forall b, ReachB E VS b ->
+  exists h, Hist E VS h (absB b) /\ forall q, lookup (absB b) q = sm_of h q.
+Proof.
+  intros E VS HE HV b HR. destruct (reachB_sound E VS HE HV b HR) as [_ HRa].
+  destruct (reach_hist E VS _ HRa) as [h Hh]. exists h. split; [exact Hh|]. exact (lookup_is_last_store E VS HE HV h _ Hh).
+Qed.
+
+(* not vacuous: limit 150 (two entries of 72 fit): insert 1->11, insert 2->22, insert 1->33 (replaces), insert 3->44 (evicts
+   key 2, the least recently used), remove 3: the client's map says 1 -> 33 and nothing else, and so does the cache *)
+Example C04_history_example :
+  let o := {| o_tomb := 0; o_reuse := false; o_alloc := true |} in
+  exists h s, Hist 72 24 h s /\ length h = 5%nat /\
+    option_map vtag (sm_of h 1) = Some 33 /\ sm_of h 2 = None /\ sm_of h 3 = None /\ kids (ents s) = [1].
+Proof.
+  cbv zeta. pose (o := {| o_tomb := 0; o_reuse := false; o_alloc := true |}).
+  assert (H0 : exists s0, new_cache 72 150 4 = Some s0) by (eexists; vm_compute; reflexivity). destruct H0 as [s0 H0].
+  pose proof H0 as H0'. vm_compute in H0'. injection H0' as <-.
+  eexists _, _. split; [|split; [|split; [|split; [|split]]]].
+  - eapply (hist_step 72 24 _ _ (Remove 3) o).
+    eapply (hist_step 72 24 _ _ (Insert {| kid := 3; ktok := 9; kheap := 0 |} {| vtok := 8; vtag := 44; vheap := 0 |}) o).
+    eapply (hist_step 72 24 _ _ (Insert {| kid := 1; ktok := 7; kheap := 0 |} {| vtok := 6; vtag := 33; vheap := 0 |}) o).
+    eapply (hist_step 72 24 _ _ (Insert {| kid := 2; ktok := 5; kheap := 0 |} {| vtok := 4; vtag := 22; vheap := 0 |}) o).
+    eapply (hist_step 72 24 _ _ (Insert {| kid := 1; ktok := 3; kheap := 0 |} {| vtok := 2; vtag := 11; vheap := 0 |}) o).
+    eapply (hist_new 72 24 150 4); [reflexivity|exact H0].
+    all: try (vm_compute; reflexivity). all: try exact I.
+  - reflexivity.
+  - reflexivity.
+  - reflexivity.
+  - reflexivity.
+  - reflexivity.
+Qed.
+
 Print Assumptions C04_nodup.
 Print Assumptions C04_outputs.
 Print Assumptions C04_insert_returns_old.
 Print Assumptions C04_step.
 Print Assumptions C04_monitor_sound.
 Print Assumptions C04_pointer_level.
+Print Assumptions C04_last_store_wins.
+Print Assumptions C04_history_pointer_level.
